@@ -98,3 +98,9 @@ pub fn u128p(s: &str) -> u128 {
         s.parse().unwrap()
     }
 }
+
+/// Output buffer handed to the crate: deliberately NOT zeroed, so that a routine that accumulates into its destination
+/// instead of overwriting it (or leaves part of it untouched) produces a visibly wrong result.
+pub fn dirty(n: usize) -> Vec<u8> {
+    (0..n).map(|i| 0xA5u8 ^ (i as u8).wrapping_mul(29) ^ ((i >> 8) as u8)).collect()
+}
